@@ -229,18 +229,20 @@ pub fn c15_oracle(d: &Dg, agg: &Agg, nq: usize, nx: usize, evals: &mut u64) -> O
 // History tree shared by C15 (every digest reached) and C16 (aggregates)
 
 pub const VALUES: [f64; 5] = [-3.0, 0.0, 1.0, 2.5, 1e9];
-pub const WEIGHTED: [(f64, f64); 8] = [(-3.0, 0.0), (-3.0, 1e-6), (0.0, 0.25), (1.0, 3.0), (2.5, 1e6), (1e9, 1e-6), (1e9, 3.0), (0.0, 0.0)];
-pub const N_OPS: usize = 5 + 8 + 3;
+// the last two pairs do not survive (x * w) / w exactly (0.1*3/3 != 0.1): min/max must come from x itself
+pub const WEIGHTED: [(f64, f64); 10] = [(-3.0, 0.0), (-3.0, 1e-6), (0.0, 0.25), (1.0, 3.0), (2.5, 1e6), (1e9, 1e-6), (1e9, 3.0), (0.0, 0.0), (0.1, 3.0), (-3.7, 0.3)];
+pub const N_W: usize = 10;
+pub const N_OPS: usize = 5 + N_W + 3;
 
 pub fn op_name(o: u16) -> String {
     let o = o as usize;
     if o < 5 {
         format!("insert({:?})", VALUES[o])
-    } else if o < 13 {
+    } else if o < 5 + N_W {
         format!("insert_weighted({:?}, {:?})", WEIGHTED[o - 5].0, WEIGHTED[o - 5].1)
-    } else if o == 13 {
+    } else if o == 5 + N_W {
         "quantile(0.5)".into()
-    } else if o == 14 {
+    } else if o == 6 + N_W {
         "n_centroids()".into()
     } else {
         "clear()".into()
@@ -273,7 +275,7 @@ pub fn apply(st: &mut TSt, o: u16, check16: bool) -> Result<Option<(String, Stri
             st.d.insert(VALUES[o]);
             st.agg.add(VALUES[o], 1.0);
             None
-        } else if o < 13 {
+        } else if o < 5 + N_W {
             let (v, w) = WEIGHTED[o - 5];
             let before = if w == 0.0 && check16 { Some(snapshot(&st.d)) } else { None };
             st.d.insert_weighted(v, w);
@@ -284,10 +286,10 @@ pub fn apply(st: &mut TSt, o: u16, check16: bool) -> Result<Option<(String, Stri
                 }
             }
             None
-        } else if o == 13 {
+        } else if o == 5 + N_W {
             let _ = st.d.quantile(0.5);
             None
-        } else if o == 14 {
+        } else if o == 6 + N_W {
             let _ = st.d.n_centroids();
             None
         } else {
